@@ -71,7 +71,7 @@ func init() {
 		ID:          "C04",
 		Explanation: "RO: scope is computed — every struct in package linker embedding a protoreflect interface whose embedded value is a noOp* placeholder or never assigned (reviewed real delegates are listed). For each, every exported method of the embedded interface (except the sealed ProtoInternal/ProtoType) must be declared on the type itself (method-set selection depth 1), so no attribute query is silently answered by the placeholder.",
 		NotDecided:  "that each override computes the right value (feature resolution, presence, packing, text names, range membership) — value-level",
-		Rules:       []func(*World){roDescriptors, rcfCaseFolding},
+		Rules:       []func(*World){roDescriptors, rcfCaseFolding, rb3NoNegativeEarlyExit},
 	})
 	register(&Property{
 		ID:          "C09",
@@ -107,13 +107,13 @@ func init() {
 		ID:          "C28",
 		Explanation: "RS: the ok flag of experimental/parser.Parse is cleared by a condition which, evaluated over the whole Level domain, is true exactly for {ICE, Error}. RW: each stage entry (lexer.loop, parser.parse, ir.lower) defers Report.CatchICE(false, …) before anything but plain assignments, so panics become ICE diagnostics; the `for !X.Done()` driver loops of the lexer and parser call their progress guard first.",
 		NotDecided:  "absence of ICEs (RW turns them into diagnostics, it does not exclude them); that diagnostic spans lie inside the file",
-		Rules:       []func(*World){rsParse, rwICE, rv3PreludeEncodingGate},
+		Rules:       []func(*World){rsParse, rwICE, rv3PreludeEncodingGate, rw5ConstIndexExperimental, rw3RuneErrorWidth, rw4NilParamDeref},
 	})
 	register(&Property{
 		ID:          "C29",
 		Explanation: "RV: in lexer.loop every path from an increment of lexer.badBytes to the function's end passes a flush (flushUnrecognized/keyword/push); badBytes is written only by loop and the flush helper. RV2: every `return false` of lexPrelude on non-empty input must have pushed tokens (today's bail-outs do not: known findings).",
 		NotDecided:  "that pushed lengths sum to the cursor advance on every path (arithmetic); bracket fusion",
-		Rules:       []func(*World){rvLexer, rv3PreludeEncodingGate},
+		Rules:       []func(*World){rvLexer, rv3PreludeEncodingGate, rw3RuneErrorWidth, rv4ConsumedTextNotDropped},
 	})
 	register(&Property{
 		ID:          "C38",
@@ -161,7 +161,7 @@ func init() {
 		ID:          "C23",
 		Explanation: "RX: sourceCodeInfo.locs is appended only by the three newLoc* primitives, each appending exactly one location (unconditional, no early return) whose Path is a copy of the path parameter and whose Span is makeSpan of the node's start/end; extraComments is read only in newLoc (both arms produce one location for the same path) and maybeDonate (creates none); extraOptionLocs only gates generateSourceInfoForOptionChildren in generateSourceCodeInfoForOption. RX4: in every `append(path, tags.T, idx)` the index variable serves a single tag (no index-space confusion) and is incremented after use in the same block.",
 		NotDecided:  "that each tag sequence is a valid path of the descriptor; span ranges; comment text",
-		Rules:       []func(*World){rxSourceInfo},
+		Rules:       []func(*World){rxSourceInfo, rx5PathNeverRewritten, rx6CommentTextFromSource, rx7ReservedCommentsNotStolen},
 	})
 	register(&Property{
 		ID:          "C13",
